@@ -175,11 +175,17 @@ KeyOfType(ty) == ty      \* "lab_types::Key" on both sides
 \* one that is not stored yet, a load / reference to one that is.
 FieldsAt(v, off, size, ty) ==
   {f \in Range(FieldsOf(def, v)) : f.off = off /\ f.size = size /\ ("lab_types::" \o f.key) = ty}
-FieldAt(v, off, size, ty, cur, k) ==
-  LET c == FieldsAt(v, off, size, ty)
+FieldAt(v, off, size, ty, cur, k, hint) ==
+  LET c0 == FieldsAt(v, off, size, ty)
+      \* a conversion only loads the removed fields and only stores the added ones
+      c == IF {f \in c0 : f.fid \in hint} # {} THEN {f \in c0 : f.fid \in hint} ELSE c0
       stored == {f \in c : \E x \in cur : x.fid = f.fid}
       pref == IF k = "write" THEN c \ stored ELSE stored
   IN IF c = {} THEN <<>> ELSE IF pref # {} THEN CHOOSE f \in pref : TRUE ELSE CHOOSE f \in c : TRUE
+PrimHint ==
+  IF IsConvert /\ CurSlot # <<>> /\ CurSlot.v + 1 \in DOMAIN def.variants
+  THEN IF e.k = "write" THEN PlusOf(def, CurSlot.v + 1) ELSE MinusOf(def, CurSlot.v + 1)
+  ELSE {}
 
 \* which buffer and which variant a primitive belongs to: <<"slot", s, v>> | <<"tmp", 0, v>> | <<>>
 Target ==
@@ -204,7 +210,7 @@ TracePrim ==
      IF t = <<>> \/ t[3] \notin DOMAIN def.variants
      THEN UNCHANGED <<ext, tmp>> /\ Consume({"C07:storage-access-outside-any-operation-on-a-live-record"})
      ELSE LET cur == IF t[1] = "tmp" THEN tmp ELSE ext[t[2]]
-              f == FieldAt(t[3], e.off, e.size, e.ty, cur, e.k)
+              f == FieldAt(t[3], e.off, e.size, e.ty, cur, e.k, PrimHint)
               fid == IF f = <<>> THEN 0 ELSE f.fid
               nxt == IF f = <<>> THEN cur
                      ELSE IF e.k = "read" THEN AfterRead(cur, e.off, e.size, fid, e.drop)
